@@ -295,7 +295,7 @@ def _get_protection_gke_from_cache(
     # https://learn.microsoft.com/en-us/openspecs/windows_protocols/ms-gkdi/4cac87a3-521e-4918-a272-240f8fabed39
     current_time = (time.time_ns() // 100) + _EPOCH_FILETIME
     base = 360000000000  # 3.6 * 10**11
-    l0 = int(current_time / (32 * 32 * base))
+    l0 = current_time // (32 * 32 * base)
     l1 = int((current_time % (32 * 32 * base)) / (32 * base))
     l2 = int((current_time % (32 * base)) / base)
 
